@@ -280,7 +280,14 @@ def _o_spend(w):
     return SP.oracle_spend(w)
 
 
-ORACLES = {"size": _o_size, "readback": _o_readback, "text": _o_text, "spend": _o_spend}
+def _o_solver(w):
+    """PSBT glue (descriptors.miniscript_solver / miniscript_sizer): what finalize() returns the engine accepts,
+    the spend context is the transaction's own (nLockTime, nSequence, version), the sizer bounds the witness."""
+    from . import c15_solver as SV
+    return SV.oracle_solver(w)
+
+
+ORACLES = {"size": _o_size, "readback": _o_readback, "text": _o_text, "spend": _o_spend, "solver": _o_solver}
 
 
 def ill_shaped(rng, toks: list[str], ctx: str) -> list[str]:
@@ -502,6 +509,7 @@ def run(ctx):
     rng.shuffle(spend_nodes)
     spend_nodes = quorums + [n for n in s1_nodes if n in spend_nodes][:ctx.n(60, 1200)] + spend_nodes
     produced = 0
+    solver_left = ctx.n(500, 20000)
     exec_lines = []
     S1 = {"0", "1", "pk_k", "c:", "v:", "a:", "n:", "and_v", "and_b", "or_b", "or_c", "or_d", "or_i", "andor"}
     for n in spend_nodes[:ctx.n(150, 3000)]:
@@ -522,6 +530,9 @@ def run(ctx):
                       + ("/cond" if r.get("cond") else "/nocond") + ("/sane" if r.get("is_sane") else "/insane"))
             ok, detail = SP._judge(r) if hasattr(SP, "_judge") else SP.oracle_spend(w)
             ctx.oracle("spend", ok, detail, witness={"oracle": "spend", "witness": w}, nontrivial=bool(r.get("produced")))
+            if n.context == P2WSH and solver_left > 0:
+                solver_left -= 1
+                ctx.check("solver", w, nontrivial=bool(r.get("produced")))
     ctx.stream("exec", exec_lines)
     ctx.note("T3/T4 are partial: covered_constructors = 0, 1, pk_k, c:, v:, a:, n:, and_v, and_b, or_b, or_c, or_d, "
              "or_i, andor (Props.C15.type_soundness_partial / satisfaction_accepted_partial); not covered: s: d: j: pk_h "
